@@ -30,6 +30,7 @@ func checkC02(w *World, r *Report) {
 	r.Rule("R02.3", "no per-stream open/negotiation inside the upstream mutex", 1)
 	r.Rule("R02.4", "every io.CopyBuffer call uses a buffer that is private to that copy", 10)
 	r.Rule("R02.5", "only session set-up failure and Shutdown close the shared physical connection", 2)
+	r.Rule("R02.6", "every serving goroutine works on the stream accepted for it (no shared re-assigned variable)", 1)
 
 	ruleAcceptLoopNotOccupied(w, r, "R02.1", map[string]bool{"stream": true}, nil)
 	ruleAcceptLoopNotOccupied(w, r, "R02.1", map[string]bool{"listener": true}, func(al acceptLoop) bool {
@@ -102,6 +103,8 @@ func checkC02(w *World, r *Report) {
 	ruleFreshCopyBuffers(w, r, "R02.4")
 	// R02.5 a failure of one logical stream never closes the shared physical session
 	ruleSharedSessionClosers(w, r, "R02.5")
+	// R02.6 each serving goroutine gets the stream/connection of its own iteration
+	ruleLoopVarEscape(w, r, "R02.6", connPkgs, "logical connections stop being independent: the goroutine of one stream picks up the next stream accepted by the loop")
 
 	// R02.3
 	conn := w.Method("internal/client/upstream", "Upstreams", "Connect")
